@@ -462,8 +462,15 @@ func (f *Filter) HashMatchAny(key [KeySize]byte, data [][]byte) (bool, error) {
 
 	b := bstream.NewBStreamReader(filterData)
 
+	// Every encoded value takes at least P+1 bits, so the bit stream bounds
+	// the number of values regardless of the N the filter was declared with.
+	sizeHint := uint64(len(filterData)) * 8 / (uint64(f.p) + 1)
+	if uint64(f.N()) < sizeHint {
+		sizeHint = uint64(f.N())
+	}
+
 	var (
-		values    = make(map[uint32]struct{}, f.N())
+		values    = make(map[uint32]struct{}, sizeHint)
 		lastValue uint64
 	)
 
